@@ -20,6 +20,7 @@
  * Trace (stdout), one line per item:
  *   S k tc=<threadcount> R=<runnable> P=<parked,unsignalled> B=<blocked on tc mutex/cond>
  *       X=<blocked otherwise> T=<0|1 time can help> h=<state signature>
+ *       [ts=<t[i].state digit per target>   only with case key `tstates 1` (C20)]
  *   E k <thread> <event> <args>      the operation performed at step k
  *   I <thread> <event> <args>        an operation performed inline (not a scheduling point)
  *   C <choice tokens>                the schedule actually taken (replayable: strategy list)
@@ -77,6 +78,7 @@ struct vthread {
     sem_t sem;
     struct op pend;
     int eager;                  /* running from creation to its first scheduling point */
+    int ended;                  /* its start routine returned (as opposed to: it was pthread_cancel()ed) */
     int signaled;               /* parked on a cond and signalled */
     void *waitc;                /* cond it is parked on */
     long waitseq;
@@ -114,6 +116,7 @@ struct sigat { long step; int sig; int done; };
 static struct sigat sigats[32];
 static int nsigat;
 static int sigq[32], nsigq;
+static int show_ts;
 
 /* monitors */
 static int inflight, peak, peak_step = -1, early_return, nfwd;
@@ -636,7 +639,13 @@ static struct vthread *pick_and_apply(void)
     nt = next_time();
     fprintf(stdout, "S %ld tc=%d", step_no, verif_threadcount());
     plist("R", R, nR); plist("P", P, nP); plist("B", B, nB); plist("X", X, nX);
-    fprintf(stdout, " T=%d h=%016llx\n", nt >= 0, (unsigned long long) signature());
+    fprintf(stdout, " T=%d h=%016llx", nt >= 0, (unsigned long long) signature());
+    if (show_ts) {              /* C20: t[i].state per target (case key `tstates 1`; off by default) */
+        fprintf(stdout, " ts=");
+        if (!verif_have_t() || !nvhosts) fputc('-', stdout);
+        else for (i = 0; i < nvhosts; i++) fputc('0' + (verif_t_state(i) & 7), stdout);
+    }
+    fputc('\n', stdout);
 
     for (i = 0; i < nsigat; i++)
         if (!sigats[i].done && sigats[i].step <= step_no) {
@@ -727,7 +736,10 @@ static void schedule_loop(struct vthread *me)
         if (!n) continue;
         if (n == me) return;
         sem_post(&n->sem);
-        if (me->alive) sem_wait(&me->sem);
+        /* a thread whose start routine returned goes on to end; a thread that was cancelled while it
+         * was the one executing the scheduler (pthread_cancel of the signals thread in the middle of
+         * a handler) must never run pdsh code again: it parks for good like any other cancelled thread */
+        if (me->alive || !me->ended) sem_wait(&me->sem);
         return;
     }
 }
@@ -762,6 +774,7 @@ static void *tramp(void *p)
     sem_wait(&me->sem);
     me->fn(me->arg);
     me->alive = 0;
+    me->ended = 1;
     me->pend.kind = OP_NONE;
     if (trace_inline) fprintf(stdout, "I %s end\n", me->name);
     if (me->eager) { me->eager = 0; sem_post(&handback); return NULL; }
@@ -982,6 +995,7 @@ int main(int argc, char **argv)
         else if (!strcmp(k, "yield")) yield_mask = yield_of(v);
         else if (!strcmp(k, "inline")) trace_inline = atoi(v);
         else if (!strcmp(k, "budget")) budget = atol(v);
+        else if (!strcmp(k, "tstates")) show_ts = atoi(v);
         else if (!strcmp(k, "spinlimit")) spin_limit = atol(v);
         else if (!strcmp(k, "seed")) { rng = 88172645463325252ULL ^ ((uint64_t) atoll(v) * 0x9e3779b97f4a7c15ULL); if (!rng) rng = 1; rnd(); rnd(); }
         else if (!strcmp(k, "spurious")) { spur_rate = atoi(v); v = strtok(NULL, " \t\n"); spur_max = v ? atoi(v) : 1000000; }
